@@ -180,10 +180,16 @@ def malformed(ctx, n=3, prefix="bytes="):
         return False, "raise", {"key": f"exception:{type(e).__name__}"}
     status = rec["status"]
     parts = [H.fany([status == 416, status == 200, status == 206])]
+    key = "malformed-range-handling"
     if status == 206:
-        parts += [rec["via"] == "sendfile", rec["offset"] >= 0, rec["count"] >= 1, rec["offset"] + rec["count"] <= size]
+        if rec.get("via") != "sendfile" or rec.get("offset") is None or rec.get("count") is None:
+            # a 206 that does not go through the byte-range send path carries no body slice at all
+            parts.append(False)
+            key = "206-without-a-byte-range-body"
+        else:
+            parts += [rec["offset"] >= 0, rec["count"] >= 1, rec["offset"] + rec["count"] <= size]
     f = H.fall(parts)
-    return f, f"status:{status}", (None if f is True else {"key": "malformed-range-handling"})
+    return f, f"status:{status}", (None if f is True else {"key": key})
 
 
 def no_range(ctx):
